@@ -108,6 +108,18 @@ func (d *driver) build(build, gobin string) (string, bool, error) {
 		if tag {
 			args = append(args, "-tags", "verif")
 		}
+		if alt := os.Getenv("VERIF_REPO"); alt != "" {
+			// development aid (mutation testing in a scratch worktree): build against
+			// another checkout of the library. The registered commands never set it.
+			mf := filepath.Join(d.work, "alt.mod")
+			if _, err := os.Stat(mf); err != nil {
+				gm, _ := os.ReadFile(filepath.Join(d.harness, "go.mod"))
+				os.WriteFile(mf, []byte(strings.Replace(string(gm), "=> /repo", "=> "+alt, 1)), 0o644)
+				gs, _ := os.ReadFile(filepath.Join(d.harness, "go.sum"))
+				os.WriteFile(filepath.Join(d.work, "alt.sum"), gs, 0o644)
+			}
+			args = append(args, "-modfile="+mf)
+		}
 		args = append(args, "-o", outp, "./cmd/vwork")
 		cmd := exec.Command(g, args...)
 		cmd.Dir = d.harness
@@ -885,6 +897,9 @@ func (d *driver) main(only string, scale float64) int {
 	}
 	b, _ := json.MarshalIndent(ev, "", " ")
 	evp := filepath.Join(d.root, "evidence", d.prop+".json")
+	if os.Getenv("VERIF_REPO") != "" {
+		evp = filepath.Join(d.root, "bin", "evidence-scratch-"+d.prop+".json") // never clobber real evidence
+	}
 	os.WriteFile(evp+".tmp", b, 0o644)
 	os.Rename(evp+".tmp", evp)
 
